@@ -241,7 +241,46 @@ pub fn render_json(f: &AFilter, explicit: bool) -> Value {
 /// dlt-viewer DLF text. explicit: all elements like dlt-viewer writes them (unused criteria present but not enabled,
 /// with decoy values; enableregexp_* flags); otherwise only the needed elements (regex auto-detection)
 pub fn render_dlf(fs: &[&AFilter], explicit: bool) -> String {
+    render_dlf_file("", fs, if explicit { DlfStyle::Full } else { DlfStyle::Minimal })
+}
+
+#[derive(Clone, Copy, PartialEq)]
+pub enum DlfStyle {
+    /// every element, unused criteria present but not enabled (like dlt-viewer writes the file)
+    Full,
+    /// only the elements of the specified criteria, no enableregexp_Appid/_Context (regex auto-detection)
+    Minimal,
+    /// only the elements of the specified criteria, with the enableregexp flag of a present apid/ctid criterion
+    MinimalFlags,
+}
+
+/// `n` fully specified filters (every element kind set and enabled, with values different from anything the filters
+/// under test use): a filter that follows them in the same file must not be influenced by them
+pub fn dlf_decoys(n: usize) -> String {
+    let d = [
+        "<filter><type>1</type><name>decoy1</name><ecuid>ZZZZ</ecuid><enableecuid>1</enableecuid>\
+<applicationid>QQ|ZZ</applicationid><enableapplicationid>1</enableapplicationid><enableregexp_Appid>1</enableregexp_Appid>\
+<contextid>QQQQ</contextid><enablecontextid>1</enablecontextid><enableregexp_Context>0</enableregexp_Context>\
+<enablecontrolmsgs>1</enablecontrolmsgs><payloadtext>zz+top</payloadtext><enablepayloadtext>1</enablepayloadtext>\
+<enableregexp_Payload>1</enableregexp_Payload><ignoreCase_Payload>1</ignoreCase_Payload>\
+<logLevelMax>1</logLevelMax><enableLogLevelMax>1</enableLogLevelMax><logLevelMin>5</logLevelMin><enableLogLevelMin>1</enableLogLevelMin>\
+<enablefilter>1</enablefilter></filter>\n",
+        "<filter><type>2</type><name>decoy2</name><ecuid>YY</ecuid><enableecuid>1</enableecuid>\
+<applicationid>YYYY</applicationid><enableapplicationid>1</enableapplicationid><enableregexp_Appid>0</enableregexp_Appid>\
+<contextid>^Y</contextid><enablecontextid>1</enablecontextid><enableregexp_Context>1</enableregexp_Context>\
+<enablecontrolmsgs>1</enablecontrolmsgs><payloadtext>yyy</payloadtext><enablepayloadtext>1</enablepayloadtext>\
+<enableregexp_Payload>0</enableregexp_Payload><ignoreCase_Payload>1</ignoreCase_Payload>\
+<logLevelMax>0</logLevelMax><enableLogLevelMax>1</enableLogLevelMax><logLevelMin>6</logLevelMin><enableLogLevelMin>1</enableLogLevelMin>\
+<enablefilter>0</enablefilter></filter>\n",
+    ];
+    (0..n).map(|i| d[i % 2]).collect()
+}
+
+pub fn render_dlf_file(prefix: &str, fs: &[&AFilter], style: DlfStyle) -> String {
+    let explicit = style == DlfStyle::Full;
+    let flags = style != DlfStyle::Minimal;
     let mut s = String::from("<?xml version=\"1.0\" encoding=\"UTF-8\"?>\n<dltfilter>\n");
+    s.push_str(prefix);
     for f in fs {
         s.push_str("<filter>");
         let mut el = |name: &str, val: &str| {
@@ -263,7 +302,7 @@ pub fn render_dlf(fs: &[&AFilter], explicit: bool) -> String {
             if c.k != "none" {
                 el(idn, &id_str(&id_syn(c)));
                 el(enn, "1");
-                if explicit {
+                if flags {
                     el(ren, if c.k == "re" { "1" } else { "0" });
                 }
             } else if explicit {
@@ -391,12 +430,15 @@ pub fn build(fe: &str, f: &AFilter) -> (Result<Filter, String>, String) {
             (Filter::from_json(&t).map_err(|e| format!("{:?}", e)), t)
         }
         "dlf" | "dlfa" => {
-            let t = render_dlf(&[f], fe == "dlf");
+            // dlf: the filter alone in its file, every element written. dlfa: only the elements of its criteria, as the
+            // 2nd or 3rd filter of a file whose first filters are fully specified decoys; it is picked by its position
+            let ndecoys = if fe == "dlf" { 0 } else { 1 + (render_json(f, true).to_string().len() % 2) };
+            let t = render_dlf_file(&dlf_decoys(ndecoys), &[f], if fe == "dlf" { DlfStyle::Full } else { DlfStyle::Minimal });
             let r = adlt::filter::functions::filters_from_dlf(t.as_bytes()).map_err(|e| format!("{:?}", e)).and_then(|mut v| {
-                if v.len() == 1 {
-                    Ok(v.remove(0))
+                if v.len() == ndecoys + 1 {
+                    Ok(v.remove(ndecoys))
                 } else {
-                    Err(format!("filters_from_dlf returned {} filters for one <filter>", v.len()))
+                    Err(format!("filters_from_dlf returned {} filters for {} <filter> elements", v.len(), ndecoys + 1))
                 }
             });
             (r, t)
@@ -505,7 +547,6 @@ pub fn gen_filter(rng: &mut Rng, fe: &str, nchars: u64) -> AFilter {
         f.ctid = if rng.chance(1, 2) { gen_id(rng, nchars, false, 5, auto) } else { no_id() };
         let need = match fe {
             "jsona" => f.ecu.k != "none" || f.apid.k != "none" || f.ctid.k != "none",
-            "dlfa" => f.apid.k != "none" || f.ctid.k != "none",
             _ => true,
         };
         if need {
